@@ -2,9 +2,13 @@
 # Build the Coq development and the hook binaries from files on disk only.
 set -e
 cd "$(dirname "$0")"
-mkdir -p .build evidence replays
+mkdir -p .build/props evidence replays
 cd coq
 coq_makefile -f _CoqProject -o Makefile >/dev/null
 timeout 3000 make -j16
 cd ..
 python3 harness/build.py
+# the property files (statements + Print Assumptions) are compiled by each check; compile them once here too
+for f in coq/Props/*.v; do
+  (cd coq && timeout 900 coqc $(grep '^-Q' _CoqProject | tr '\n' ' ') -o ../.build/props/$(basename $f .v).vo Props/$(basename $f)) >/dev/null || echo "warning: $f does not check"
+done
